@@ -143,10 +143,13 @@ class SweepSession:
             self._forms[key] = node
         return node
 
-    def call(self, fn, argnames, named=None, wrap=None):
+    def call(self, fn, argnames, named=None, wrap=None, alias=False):
         """execute one call with fresh pool values; returns (outcome_raw,
-        args(list of Value))"""
+        args(list of Value)); alias=True passes ONE object for equal names"""
         args = [POOL[POOL_INDEX[a]][1](self) for a in argnames]
+        if alias:
+            first = {}
+            args = [first.setdefault(a, v) for a, v in zip(argnames, args)]
         env = self.env.newEnv()
         env.put("f", fn)
         for nm, v in zip("abc", args):
@@ -158,7 +161,8 @@ class SweepSession:
         core.arm(10.0)
         try:
             o = core.outcome_raw(lambda: node.evaluate(env))
-            if o[0] == "value":
+            if o[0] == "value" and not (
+                    isinstance(o[1], V.Value) and core.is_cyclic(o[1])):
                 # rendering the result is part of the observation
                 try:
                     repr(o[1])
